@@ -728,7 +728,12 @@ def classify_guard(a):
         out.append("index-reuse:sibling-order")
     info = {i: reader_ports(n["op"]) for i, n in nodes.items()}
 
+    if any(s not in nodes or d not in nodes for s, so, d, do in a["links"]):
+        out.append("link-on-deleted-node")
+
     def bad_port(i, k, inp):
+        if i not in info:
+            return False
         ordp, vi, si, vo, so = info[i]
         if not ordp:
             return k == -1
@@ -881,6 +886,7 @@ class RT(fw.Prop):
 
     def observe(self, case, ctx):
         from hugr.package import Package
+        self._ctx = ctx
         k = case["kind"]
         if k in ("hugr", "hist"):
             h = self.program(case)
@@ -1095,6 +1101,26 @@ class RT(fw.Prop):
         return c
 
     def shrink(self, case):
+        """smaller variants that fail in the same way: a candidate whose failure has another signature (dropping a
+        mutation renumbers the nodes added later, which can turn the case into one of the known findings) is not
+        offered to the driver"""
+        ctx = getattr(self, "_ctx", None)
+        if ctx is None or case["kind"] not in ("hugr", "hist"):
+            yield from self._shrink_raw(case)
+            return
+        try:
+            sig0 = self.signature(case, self.observe(case, ctx), ctx)
+        except Exception:
+            yield from self._shrink_raw(case)
+            return
+        for c in self._shrink_raw(case):
+            try:
+                if self.signature(c, self.observe(c, ctx), ctx) == sig0:
+                    yield c
+            except Exception:
+                continue
+
+    def _shrink_raw(self, case):
         if case["kind"] == "pkg":
             for key in ("seeds", "progs"):
                 xs = case.get(key, [])
